@@ -116,3 +116,79 @@ def rule_lazy_variable_counter(ctx):
                 ok = any(b.postdominates(i, rd) or (i.bb == rd.bb and (i.si is None or rd.si is None or i.si > rd.si)) for i in mine)
                 r.check(ok, anchor, "counter-not-advanced", "the counter read to name a new variable is increased on every path that follows", "the counter is read to name a new auxiliary variable but is not increased on every path that follows: the next auxiliary variable gets the same number, and the two constraints it stands for are merged", rd.loc())
     r.floor(n, 1, "reads of a lazy variable counter that name a new variable")
+
+
+def rule_range_offset(ctx):
+    """C10: the range variables the encoder defines are the ones `first_range_var` tells the solvers to read"""
+    prog = ctx.prog
+    from ..prov import prov, show, expand_params
+    from .splits import linear
+
+    r = ctx.rule(
+        "range-offset-agrees",
+        "`first_range_var(n)` is called by the solvers with the number of arguments of the encoded framework; wherever an encoder computes a "
+        "range variable with the same id->range-variable function, the count it passes is that number of arguments itself (`af.n_arguments()`), "
+        "not a multiple or another layout offset: otherwise the range variables that are defined are not the ones that are read",
+    )
+    ENC = "encodings::specs::ConstraintsEncoder"
+    n = 0
+    rfns = {}
+    for imp in prog.impls_of_trait(ENC):
+        for m in imp["methods"]:
+            if m["name"] != "first_range_var":
+                continue
+            b = prog.lib(m["path"])
+            if b is None or not b.exits():
+                continue
+            for s in b.calls():
+                t = prog.body_for_callee(callee_of(s), b) if callee_of(s) else None
+                if t is not None and t.kind != "closure" and t.ret_ty == "usize" and t.n_args == 2 and t.path.startswith("encodings::"):
+                    rfns[t.id] = t
+
+    def lin2(e):
+        if isinstance(e, tuple) and e[0] == "op" and e[1] in ("Shl", "ShlUnchecked") and len(e[2]) == 2 and e[2][1][0] == "const" and isinstance(e[2][1][1], int):
+            x = lin2(e[2][0])
+            return None if x is None else {k: v * (1 << e[2][1][1]) for k, v in x.items()}
+        if isinstance(e, tuple) and e[0] == "op" and e[1] in ("Mul", "MulWithOverflow") and len(e[2]) == 2:
+            for i in (0, 1):
+                if e[2][i][0] == "const" and isinstance(e[2][i][1], int):
+                    x = lin2(e[2][1 - i])
+                    return None if x is None else {k: v * e[2][i][1] for k, v in x.items()}
+        if isinstance(e, tuple) and e[0] == "op" and e[1] in ("Add", "Sub", "AddWithOverflow", "SubWithOverflow") and len(e[2]) == 2:
+            x, y = lin2(e[2][0]), lin2(e[2][1])
+            if x is None or y is None:
+                return None
+            out = dict(x)
+            for k, v in y.items():
+                out[k] = out.get(k, 0) + (v if e[1].startswith("Add") else -v)
+            return {k: v for k, v in out.items() if v != 0}
+        if isinstance(e, tuple) and e[0] == "field" and e[2] == "0":
+            return lin2(e[1])
+        return linear(e, lambda t: "N" if (isinstance(t, tuple) and t[0] == "call" and re.search(r"AAFramework::(<.*>::)?n_arguments$", t[1])) else None)
+
+    for t in rfns.values():
+        for cs in prog.callers_of(t):
+            fn = prog.enclosing_fn(cs.body)
+            if fn.impl and fn.impl.get("trait") == ENC and fn.name == "first_range_var":
+                continue
+            if not (fn.path.startswith("encodings::") or "<encodings::" in fn.path.split(" as ")[0]):
+                continue
+            n += 1
+            anchor = "%s|%s" % (cs.body.id, t.path.rsplit("::", 1)[-1])
+            vals = set()
+            und = None
+            for e in prov(prog, cs.body, cs.node["args"][0]):
+                for e2 in expand_params(prog, e, 3):
+                    v = lin2(e2)
+                    if v is None:
+                        und = show(e2)[:70]
+                    else:
+                        vals.add(tuple(sorted(v.items(), key=str)))
+            bad = [v for v in vals if dict(v) != {"N": 1}]
+            if bad:
+                r.violation(anchor, "range-offset:%s" % (bad[0],), "the range variable is computed with the count %s where the solvers ask `first_range_var` with the number of arguments: the range variables that get defined are not the ones the searches assume, block and read" % " + ".join("%s*%s" % (c, k) for k, c in bad[0]), cs.loc())
+            elif und or not vals:
+                r.ok(anchor, "NOT decided: the count handed to the range-variable function is not a linear form of n_arguments() (%s)" % (und or "no value"), cs.loc())
+            else:
+                r.ok(anchor, "the count handed to the range-variable function is the number of arguments of the encoded framework", cs.loc())
+    r.floor(n, 2, "range-variable computations in the encoders")
